@@ -296,7 +296,7 @@ var StructTypes = []reflect.Type{
 	T(CN1{}), T(CN2{}), T(NMapHolder{}),
 	T(ManyF{}), T(ManyL{}),
 	T(Node{}), T(FNode{}), T(Ping{}), T(Pong{}), T(ENode{}), T(DeepNil{}),
-	T(MapAndLists{}), T(Wrap{}), T(WrapList{}), T(PtrTime{}), T(Named{}), T(SelfAny{}), T(SelfAnyList{}), T(PtrConts{}), T(MutA{}), T(MutB{}), T(MpKeyStruct{}), T(MutGraph{}), T(NonASCII{}), T(RecConts{}), T(AmpTop{}), T(AmpN{}), T(FloatMix{}), T(Forest{}), T(CaseTwins{}), T(Bags{}), T(PtrNamed{}), T(NonASCIIFirst{}), T(IntMix{}), T(Empty{}), T(NumMaps{}), T(BaseEnt{}), T(PlainEnt{}), T(AccountEnt{}), T(PtrBaseEnt{}), T(Ents{}), T(PtrAccountEnt{}), T(Ents2{}), T(NamedLists{}), T(StrMix{}), T(TimeMix{}), T(Color{}), T(Pair{}), T(Envelope{}), T(Empty2{}), T(Markers{}), T(UserID{}), T(UserId{}), T(CaseClasses{}), T(Block{}), T(Coded{}),
+	T(MapAndLists{}), T(Wrap{}), T(WrapList{}), T(PtrTime{}), T(Named{}), T(SelfAny{}), T(SelfAnyList{}), T(PtrConts{}), T(MutA{}), T(MutB{}), T(MpKeyStruct{}), T(MutGraph{}), T(NonASCII{}), T(RecConts{}), T(AmpTop{}), T(AmpN{}), T(FloatMix{}), T(Forest{}), T(CaseTwins{}), T(Bags{}), T(PtrNamed{}), T(NonASCIIFirst{}), T(IntMix{}), T(Empty{}), T(NumMaps{}), T(BaseEnt{}), T(PlainEnt{}), T(AccountEnt{}), T(PtrBaseEnt{}), T(Ents{}), T(PtrAccountEnt{}), T(Ents2{}), T(Time{}), T(Location{}), T(Event{}), T(NamedLists{}), T(StrMix{}), T(TimeMix{}), T(Color{}), T(Pair{}), T(Envelope{}), T(Empty2{}), T(Markers{}), T(UserID{}), T(UserId{}), T(CaseClasses{}), T(Block{}), T(Coded{}),
 }
 
 // TypeByName finds a zoo struct type.
@@ -953,4 +953,16 @@ func (EmptyNamed) HessianCodecName() string { return "" }
 type EmptyNamedHolder struct {
 	X *EmptyNamed
 	M map[string]int32
+}
+
+// Time / Location / Event: structs of the caller's that bear the names of time.Time and time.Location, next to
+// timestamps (the extraction used to walk into time.Time and register its parts under those names).
+type Time struct{ Label string }
+type Location struct{ City string }
+type Event struct {
+	At time.Time
+	X  Time
+	L  *Location
+	Ts []time.Time
+	Xs []*Time
 }
